@@ -67,6 +67,10 @@ pub struct Spec {
     /// owes its exit write
     #[serde(default)]
     pub reuse: bool,
+    /// the join is evaluated as an argument of `eprint!`, i.e. while the joiner holds the stderr print lock
+    /// (`eprintln!("{:?}", handle.join())`)
+    #[serde(default)]
+    pub join_in_print: bool,
 }
 
 impl Spec {
@@ -96,7 +100,8 @@ pub fn encode_batch(b: &Batch) -> Vec<u8> {
         pl.extend_from_slice(&s.stall_ns.to_le_bytes());
         pl.push(s.stall_k);
         pl.push(s.reuse as u8);
-        pl.extend_from_slice(&[0u8; 2]);
+        pl.push(s.join_in_print as u8);
+        pl.push(0);
     }
     let mut out = (pl.len() as u32).to_le_bytes().to_vec();
     out.extend_from_slice(&pl);
